@@ -127,6 +127,14 @@ def finding (w : World) : Op → Option Finding
   | .embed s host sub _ =>
     if !specOK s || (dget w.block host).isNone || !(s.blocks.any fun b => b.1 == sub) then none
     else if s.rocks.any (fun r => rockNameInUse w r.1) then some .f2 else none
+  | .readdBlock nm =>
+    match outsideBlock w nm with
+    | none => none
+    | some b => if (w.bk b).conn.isEmpty && decide ((w.bk b).rock ∈ w.rocktypelist) && blockNameConnected w nm then some .f1 else none
+  | .readdRocktype nm =>
+    match outsideRock w nm with
+    | none => none
+    | some _ => if rockNameInUse w nm then some .f2 else none
   | _ => none
 
 /-- preconditions of the three constructor-and-add calls (see `pre`) -/
@@ -196,6 +204,25 @@ def pre (w : World) : Op → Bool
     specOK s && preAllBasic (w.withGrid ⟨[], [], [], [], [], []⟩) (specOps s) &&
     (dget w.block host).isSome && (dget other.block sub).isSome &&
     w1.rocktypelist.all (fun x => other.rocktypelist.all fun y => w1.rname x != w1.rname y || !rockUsedIn w1 w1.grid x)
+  -- misuse: a block must carry one of the grid's rocktype objects (not merely one of the same name)
+  | .addBlockFresh _ _ _ _ => false
+  -- misuse: the object handed back must carry no connection record of its own and a registered rock
+  -- type (a block that was deleted from this grid does); F1 as for add_block
+  | .readdBlock nm =>
+    match outsideBlock w nm with
+    | none => true
+    | some b => (w.bk b).conn.isEmpty && decide ((w.bk b).rock ∈ w.rocktypelist) && !blockNameConnected w nm
+  -- F2 as for add_rocktype
+  | .readdRocktype nm =>
+    match outsideRock w nm with
+    | none => true
+    | some _ => !rockNameInUse w nm
+  -- misuse: both blocks of the connection must (still) be blocks of the grid
+  | .readdConnection n0 n1 =>
+    match outsideCon w (n0, n1) with
+    | none => true
+    | some c => decide ((w.cn c).b0 ∈ w.blocklist) && decide ((w.cn c).b1 ∈ w.blocklist) && (w.cn c).b0 != (w.cn c).b1
+  | .againBlock _ => true
 
 /-- what the driver reports about an operation in the state it is applied to -/
 def preClass (w : World) (op : Op) : String :=
